@@ -38,9 +38,10 @@ pub fn strings_upto(alphabet: &[&str], n: usize) -> Vec<String> {
 }
 
 const EQ_ALPHA: [&str; 6] = ["a", "b", " ", "é", "*", "\\"];
-const ESC_ALPHA: [&str; 9] = ["a", "\\", "t", "x", "0", "1", "4", "e", "é"];
-const GLOB_ALPHA: [&str; 5] = ["a", "b", "?", "*", "é"];
-const GLOB_LINE_ALPHA: [&str; 3] = ["a", "b", "é"];
+const ESC_ALPHA: [&str; 11] = ["a", "\\", "t", "x", "0", "1", "4", "e", "é", "F", "7"];
+// `.` is a literal in a glob but a metacharacter of the regex the cram-compat glob is translated to
+const GLOB_ALPHA: [&str; 6] = ["a", "b", "?", "*", "é", "."];
+const GLOB_LINE_ALPHA: [&str; 4] = ["a", "b", "é", "."];
 const RE_LINE_ALPHA: [&str; 4] = ["a", "b", "c", "é"];
 
 fn fixed_cases() -> Vec<RuleCase> {
